@@ -15,7 +15,7 @@
    2.675e21 denotes it): known finding C19-lexical-not-shortest.  This reference stays the
    principled one (it agrees with std's `{:e}` digits on every generated double). *)
 From Coq Require Import ZArith NArith List Bool SpecFloat.
-From JsonSyntax Require Import Base.Float64 Spec.EcmaNumber.
+From JsonSyntax Require Import Base.Float64 Spec.EcmaNumber Model.Macro Model.Serde.
 Import ListNotations.
 Local Open Scope Z_scope.
 
@@ -54,3 +54,30 @@ Definition lexical_f64 (spelling : list N) : option (list N) :=
     | None => None
     end
   end.
+
+(* the same for an f32 literal: rustc rounds the decimal to the nearest binary32 ([sgl],
+   Model/Serde.v); the digits are the shortest that read back as that binary32, of two equally
+   close candidates the larger (what lexical does for f32; round trip and totality are proved
+   in Proofs/Float32Proofs.v, Proofs/Float32Total.v), in the same layout *)
+Definition lexical_f32 (spelling : list N) : option (list N) :=
+  match spelling with
+  | 0x2D%N :: _ => None
+  | _ =>
+    match read_decimal spelling with
+    | Some _ =>
+        match sgl spelling with
+        | S754_zero _ => Some [0x30%N]
+        | S754_finite _ m e =>
+            match fmt_sf chk32 false (S754_finite false m e) with
+            | [] => None
+            | r => Some r
+            end
+        | _ => None
+        end
+    | None => None
+    end
+  end.
+
+(* the dependency [fmt_float] of Model/Macro.v *)
+Definition lexical_float (t : fty) (spelling : list N) : option (list N) :=
+  match t with FT64 => lexical_f64 spelling | FT32 => lexical_f32 spelling end.
